@@ -491,9 +491,12 @@ func (f *Func) reachTarget(
 					}
 
 					// The smaller discounts only make sense for the edges
-					// from typed arguments: all other edges to a value are
-					// not more expensive than that to begin with.
-					if _, ok := src.(*typedArgVertex); ok {
+					// that cost weightTyped: those from typed arguments and
+					// those from the same-named value without subtype. The
+					// edges from the functions that take the value are not
+					// more expensive than that to begin with.
+					switch src.(type) {
+					case *typedArgVertex, *valueVertex:
 						weight := weightInheritedName + rank - 1
 						if weight >= weightTyped {
 							weight = weightTyped - 1
